@@ -65,6 +65,7 @@ type Engine struct {
 	defaults        map[string]*Contract
 	ginit           map[*ssa.Global][]globalInitFact
 	bodySum         map[*ssa.Function]map[string]bool
+	ctKeys          []string
 }
 
 type chanHooks struct {
@@ -508,6 +509,18 @@ func (eng *Engine) signatureFor(ct *Contract, fn *ssa.Function) *sigInfo {
 		si := &sigInfo{recv: s.Recv(), params: s.Params(), results: s.Results(), freeVars: fn.FreeVars}
 		return si
 	}
+	if ct.FnType {
+		// contract of a named function type: key "type pkg.T"; self is the function value
+		parts := strings.Split(strings.TrimPrefix(ct.Key, "type "), ".")
+		if p := eng.pkgByPath(ct.PkgPath); p != nil && len(parts) == 2 {
+			if obj := p.Scope().Lookup(parts[1]); obj != nil {
+				if s, ok := obj.Type().Underlying().(*types.Signature); ok {
+					return &sigInfo{recv: types.NewVar(token.NoPos, p, "self", obj.Type()), params: s.Params(), results: s.Results()}
+				}
+			}
+		}
+		return nil
+	}
 	// interface method contract: key "pkg.Iface.Method"
 	parts := strings.Split(ct.Key, ".")
 	if len(parts) == 3 {
@@ -528,6 +541,19 @@ func (eng *Engine) signatureFor(ct *Contract, fn *ssa.Function) *sigInfo {
 }
 
 func (eng *Engine) fnparamContract(a *Act, v ssa.Value) *Contract { return nil }
+
+// fnTypeContract: the contract declared for a named function type ("contract type T"): what every value of that type that
+// is not a known function of the library is assumed to do (user-supplied modifiers, handlers, ...)
+func (eng *Engine) fnTypeContract(t types.Type) *Contract {
+	n, ok := t.(*types.Named)
+	if !ok {
+		return nil
+	}
+	if _, isSig := n.Underlying().(*types.Signature); !isSig {
+		return nil
+	}
+	return eng.contracts["type "+shortName(n.String())]
+}
 
 func (eng *Engine) sameSCC(a, b *ssa.Function) bool { return true }
 
